@@ -21,7 +21,7 @@ RULE = ("trees of lower-case .cmake files at depth 0..4 whose contents are gener
         "<name>' both equal <name>, the doccomment body is the module directive's content and none of it appears in the "
         "following command's entry. Non-trivial: depth>=2 or separator != '.' or lone-file input or '@module' directly "
         "followed by a command; distinct by SHA-1 of the case")
-RULE_MORE = "input directory names with dots, a leading dot or blanks (the default prefix); '@module' names ending in '.cmake'. Later: prior run under another prefix; dir-link mode; backslash and blank-ended names; braces in prefix / separator; whitespace variants around '@module'."
+RULE_MORE = "input directory names with dots, a leading dot or blanks (the default prefix); '@module' names ending in '.cmake'. Later: prior run under another prefix; dir-link mode; backslash and blank-ended names; braces in prefix / separator; whitespace variants around '@module'; (round 10) prefixes holding '/' (`org/project`, `tools/`), a backup mirror below the input directory that repeats the input directory's absolute path."
 ASSUMPTIONS = ["file names end in lower-case .cmake", "how inner path components are joined is not constrained, only their order"]
 BUDGET = {"quick": {"shards": 8, "examples": 100}, "thorough": {"shards": 16, "examples": 1500}}
 
@@ -53,7 +53,7 @@ def strategy(tier):
         "tree": _tree(depth),
         "mode": st.sampled_from(["dir-abs", "dir-abs", "dir-rel", "dir-dot", "dir-dotslash", "file-abs", "file-rel", "dir-after-other",
                                   "file-after-dir", "dir-link"]),
-        "prefix": st.sampled_from([None, None, ["-p", "pfx"], ["-p", "My.Proj"], ["cfg", "cfgpfx"], ["-p", "p q"], ["-p", "préfix"], ["-p", "core{{v2}}"], ["-p", "${PROJECT_NAME}"], ["cfg", "{0}"]]),
+        "prefix": st.sampled_from([None, None, ["-p", "org/project"], ["cfg", "tools/"], ["-p", "pfx"], ["-p", "My.Proj"], ["cfg", "cfgpfx"], ["-p", "p q"], ["-p", "préfix"], ["-p", "core{{v2}}"], ["-p", "${PROJECT_NAME}"], ["cfg", "{0}"]]),
         "sep": st.sampled_from(SEPS),
         "ext_titles": st.booleans(),
         "ext_modules": st.booleans(),
@@ -63,6 +63,7 @@ def strategy(tier):
         # name of the input directory (it is the default prefix): dots, dashes, a leading dot, a blank
         # the same input was documented into the same output before, under another prefix and other header characters
         "prior": st.sampled_from([False, False, True]),
+        "mirror": st.sampled_from([False, False, False, True]),
         "inname": st.sampled_from(["in", "widgets-2.1", "in", "my.project", ".proj", "v1.2.3", "In Put", "lib.cmake"]),
     })
 
@@ -134,7 +135,7 @@ def check_page(text, rel, mod_case, case, prefix_applies, prefix, res, titles, m
                 junk = junk.replace(c, "", 1)
             if junk.strip("/." + sep) != "":
                 res.fail(f"{what}-foreign-text", f"{where}: {what} {val!r} contains {junk!r} besides prefix, path components and stem")
-            if "sbx_" in val or "/dev/shm" in val or (lone and "/" in rest and sep != "/"):
+            if (("sbx_" in val or "/dev/shm" in val) and "sbx_" not in rel) or (lone and "/" in rest and sep != "/"):
                 res.fail(f"{what}-absolute-path", f"{where}: {what} {val!r} contains an absolute-path component")
         t_core = page.title[:-len(".cmake")] if case["ext_titles"] and page.title.endswith(".cmake") else page.title
         m_core = modname[:-len(".cmake")] if case["ext_modules"] and modname.endswith(".cmake") else modname
@@ -184,6 +185,15 @@ def evaluate(case):
             os.makedirs(os.path.dirname(p), exist_ok=True)
             with open(p, "wb") as f:
                 f.write(R.render(mc["module"], mc["layout"]).encode("utf-8"))
+        if case.get("mirror") and not lone:
+            # a backup mirror below the input directory repeats the input directory's own absolute path
+            rel0, mc0 = files[0]
+            mrel = "backup/" + os.path.abspath(inp).lstrip("/") + "/" + os.path.basename(rel0)
+            os.makedirs(os.path.dirname(os.path.join(inp, mrel)), exist_ok=True)
+            with open(os.path.join(inp, mrel), "wb") as f:
+                f.write(R.render(mc0["module"], mc0["layout"]).encode("utf-8"))
+            files = files + [(mrel, mc0)]
+            res.labels.append("mirror-of-own-absolute-path")
         deep = [rel for rel, _ in files if "/" in rel]
         if case.get("symlink") and deep and not lone:
             # zz_link.cmake in the input root points at a module further down: its title derives from where the LINK is
